@@ -63,13 +63,14 @@ theorem DOk.xexpr_pure {e : Expr} {loc : Env} {d : DSt} {v : Val} {out : List Ev
     DOk (.xexpr (.pure e)) loc d out d :=
   ⟨1, by simp [doc, hv, ho, bind, Except.bind, pure, Except.pure]⟩
 
-theorem DOk.xexpr_call {f args} {loc : Env} {d d' : DSt} {o : List Event} {vs m scope}
-    (hvs : evalArgs (dlook loc d) args = .ok vs) (hm : getDMacro d (dlook loc d f) = .ok m)
+theorem DOk.xexpr_call {f args} {loc : Env} {d d' : DSt} {o : List Event} {fv vs m scope}
+    (hfv : eval (dlook loc d) f = .ok fv)
+    (hvs : evalArgs (dlook loc d) args = .ok vs) (hm : getDMacro d fv = .ok m)
     (hsc : bindParams m.params vs = .ok scope)
     (h : DOk (.dirs m.dirs m.target) (scope ++ loc) d o d') :
     DOk (.xexpr (.call f args)) loc d o d' := by
   obtain ⟨n, h⟩ := h
-  exact ⟨n + 1, by simp [doc, hvs, hm, hsc, h, bind, Except.bind]⟩
+  exact ⟨n + 1, by simp [doc, hfv, hvs, hm, hsc, h, bind, Except.bind]⟩
 
 theorem DOk.def_ (name params ds t) (loc : Env) (d : DSt) :
     DOk (.dirs (.def_ name params :: ds) t) loc d [] (d.define name ⟨params, ds, t⟩) := ⟨1, rfl⟩
